@@ -376,6 +376,8 @@ def generate(rng, tier, i):
                 ops.append({"op": "with_powder", "src": src, "id": k, "dim": dim, "n": n,
                             "values": [gen_float(rng) for _ in range(n)],
                             "variances": _gen_variances(rng, n, 0.7),
+                            "extra_coord": ({"name": rng.choice(["tof", "dspacing", "two_theta", "x"]),
+                                             "unaligned": rng.random() < 0.5} if rng.random() < 0.25 else None),
                             "coord": sorted(abs(gen_float(rng)) for _ in range(n)),
                             "coord_var": _gen_variances(rng, n, 0.3),
                             "unit": rng.choice(["one", "one", "counts", "us"]),
@@ -598,6 +600,8 @@ class CifEngine(Engine):
         scn = generate(rng, tier, i)
         if rng.random() < 0.1:
             scn["locale"] = "C"  # default text encoding of open() is strict ASCII
+        if rng.random() < 0.15:
+            scn["logging"] = rng.choice(["INFO", "DEBUG"])  # the application has logging switched on
         return scn
 
     # ----------------------------------------------------------- lib objects
@@ -829,7 +833,17 @@ class CifEngine(Engine):
                                      variances=None if op["coord_var"] is None else np.asarray(op["coord_var"], dtype=float))
                     data = sc.array(dims=[op["dim"]], values=np.asarray(op["values"], dtype=float), unit=op["unit"],
                                     variances=None if op["variances"] is None else np.asarray(op["variances"], dtype=float))
-                    da = sc.DataArray(data, coords={op["dim"]: coord}, name=op["name"])
+                    coords = {op["dim"]: coord}
+                    ex = op.get("extra_coord")
+                    if ex:
+                        # what transform_coords leaves behind (tof next to dspacing), or any other
+                        # coordinate: attached BEFORE the dimension-coordinate
+                        other = sc.array(dims=[op["dim"]], values=np.arange(float(op["n"])) + 100.0,
+                                         unit={"tof": "us", "dspacing": "angstrom"}.get(ex["name"], "m"))
+                        coords = {ex["name"]: other, op["dim"]: coord}
+                    da = sc.DataArray(data, coords=coords, name=op["name"])
+                    if ex and ex.get("unaligned"):
+                        da.coords.set_aligned(ex["name"], False)
                     return lib[op["src"]].with_reduced_powder_data(da, comment=op["comment"])
                 res, exc = core.capture(mk)
                 lib[op["id"]] = res
